@@ -11,6 +11,10 @@ CHECKS = {
          "The real gnmi_collector and gnmi_cli are built from the working tree and run as child processes. 1-3 scripted TLS targets stream generated updates/deletes (all scalar arms, 1-3 list keys, deprecated encoding, origins empty/openconfig/custom, prefix/path splits, multi-update notifications, a sync, then a nonce sentinel); after logical quiescence the CacheClient view of every per-target and '*' STREAM subscriber and the output of gnmi_cli ONCE (group and single display, invoked by flags, -proto and -proto_file) must equal the model exactly, every streamed value must be one the target held, and each target must have received its configured request with the target stamped in. Held on the scenarios generated; the known finding D19 (origin carried in the update path) is reproduced in its own mode and classified only when the view equals exactly the origin-ignored state.",
          "Model = generator's own record of Go scalars per index path; quiescence by sentinel; a sentinel unseen 30 s after the target handed it to the transport is an attributable violation, otherwise inconclusive; meta/ subtree excluded; no atomic notifications; tunnel targets and collector restarts out of reach.",
          "3/C01"),
+ "C17": ("replay monitor (shadow driven by handler calls) with an independent acceptability oracle over exhaustive small-scope and random mutation sequences of loads",
+         "Every Load / NewConfigWithBase of every explored sequence runs on the real target.Config. An independent oracle recomputes acceptability (documented validity conditions + strictly greater revision), replays the Add/Update/Delete handler calls onto a shadow map that must equal the loaded configuration's {name -> (target, resolved request)}, requires silence for unchanged targets and rejected loads, compares Current() after every step and checks that Current() is a deep copy and the caller's objects stay unmodified. Exhaustive for all sequences of <= 3 loads over 55 configurations (thorough: 73, plus all 4-load sequences over 31), with and without a base; seeded random mutation sequences of 2-12 loads beyond. Held = held on those executions.",
+         "Validity conditions and 'unchanged' (equal deterministic wire encoding of target and resolved request) are the specification; several calls for one changed target are tolerated if the replay is disciplined and converges; each load passes a fresh object not modified afterwards; single goroutine; handlers do not call back into the Config.",
+         "3/C17"),
  "C19": ("generated-input reference-model differential with 32x repetition for map order and an exhaustive pair relation over a value pool",
          "Differential monitoring of the real path.ToStrings, path.CompletePath, the gnmi client's query -> SubscribeRequest conversion followed by wire marshal/unmarshal and server-side indexing, and value.FromScalar/ToScalar/Equal against small specifications: 10^5 (thorough 10^6) generated paths each evaluated 32 times and on deep clones, 2x10^5 (2x10^6) plain query paths, 22 Go scalar kinds, and ALL ordered pairs of a pool of 120 (600) TypedValues covering every oneof arm, no arm and nil (total, symmetric, sound). Held on everything explored except the known finding D18 (last query element ending in '/'), which is classified only when exactly that element is lost.",
          "Trusts model.IndexPath/IndexPrefix and the DESIGN definition of a plain element; proto marshal/unmarshal stands for the wire; Equal judged for totality, symmetry and soundness only; map-order independence explored by repetition.",
